@@ -84,11 +84,29 @@ static std::vector<D> diags(Document& doc)
 }
 
 // ---------------------------------------------------------------------------------------------------------------
+// DocumentBuilder that remembers every range the parser assigns (CALL -> set_position) outside [lo, hi] or with start > end
+class RangeBuilder : public DocumentBuilder
+{
+public:
+    uint32_t lo = 0, hi = 0xffffffffu;
+    uint64_t calls = 0;
+    std::vector<std::pair<uint32_t, uint32_t>> bad;
+    explicit RangeBuilder(Document& d): DocumentBuilder{d} {}
+    void set_position(uint32_t a, uint32_t b) override
+    {
+        ++calls;
+        if ((a < lo || b > hi || a > b) && bad.size() < 8) bad.emplace_back(a, b);
+        DocumentBuilder::set_position(a, b);
+    }
+};
+
 static void opLex(bool newxta, int part, const std::string& text)
 {
     Document doc;
-    DocumentBuilder b(doc);
+    RangeBuilder b(doc);
     uint32_t p0 = tracker.position;
+    b.lo = p0 + 1;
+    b.hi = p0 + 1 + (uint32_t)text.size();
     std::string exc;
     int rc = 0;
     try {
@@ -127,6 +145,12 @@ static void opLex(bool newxta, int part, const std::string& text)
     for (auto& d : diags(doc)) {
         os << (first ? "" : ",") << "[" << jstr(d.msg) << "," << (int64_t)d.ps - (int64_t)(p0 + 1) << "," << (int64_t)d.pe - (int64_t)(p0 + 1) << ","
            << d.sl << "," << d.sc << "," << d.el << "," << d.ec << "," << jstr(d.path) << "]";
+        first = false;
+    }
+    os << "],\"calls\":" << b.calls << ",\"badpos\":[";
+    first = true;
+    for (auto& p : b.bad) {
+        os << (first ? "" : ",") << "[" << (int64_t)p.first - (int64_t)(p0 + 1) << "," << (int64_t)p.second - (int64_t)(p0 + 1) << "]";
         first = false;
     }
     os << "]}";
